@@ -23,6 +23,7 @@ from lib import vlib
 RACE = {"conc": True, "pre17_conc": True}
 PKG = "https/net/context"
 CONC_REPRO = 5
+SEQ_REPRO = 2
 
 # ---------------------------------------------------------------------------------------------------------------
 # The pre17 variant needs build flags (-overlay, an extra tag) that Ctx.go_build does not take. The two methods are
@@ -121,9 +122,38 @@ def _need(info, n, what):
         raise vlib.Broken("%s emitted %d cases, expected at least %d (log %s)" % (what, info["cases"], n, info["log"]))
 
 
+def _cls(r):
+    return (r.get("info") or {}).get("class") or r.get("deviation") or "?"
+
+
+def _seq_stage(ctx, stage, cases):
+    """Sequential stage. Failures are grouped by class (Done / Err / Deadline / Value / registry / panic / named deviation);
+    SEQ_REPRO cases per class are run again alone in a fresh process and must fail again."""
+    res = ctx.replay(stage, cases)
+    ctx.judge(stage, cases, res, reproduce=False)
+    fails = [(n, c, r) for (n, c, r) in ctx.fail_results if n == stage]
+    ctx.fail_results[:] = [(n, c, r) for (n, c, r) in ctx.fail_results if n != stage]
+    done = {}
+    for n, case, r in fails:
+        k = _cls(r)
+        if done.get(k, 0) < SEQ_REPRO:
+            done[k] = done.get(k, 0) + 1
+            single = os.path.join(ctx.out, "single_%s.ndjson" % stage)
+            with open(single, "w") as f:
+                f.write(json.dumps(case) + "\n")
+            # the replayer picks Background / TODO by case index: keep the parity class of the index
+            with open(single, "w") as f:
+                f.write("".join(json.dumps(case) + "\n" for _ in range(4)))
+            rr = ctx.replay(stage, single)
+            if all(x["ok"] for x in rr):
+                raise vlib.Broken("failure of the %s stage not reproducible in isolation: %s" % (stage, json.dumps(r)[:800]))
+        ctx.fail_results.append((n, case, r))
+    return res
+
+
 def _conc_stage(ctx, stage, cases):
-    """Concurrent stage under the race detector. A failure counts if it shows again (same class) in one of CONC_REPRO
-    fresh processes running the case alone with many more rounds: schedules are the Go scheduler's, not ours."""
+    """Concurrent stage under the race detector. A failure counts if it shows again in one of CONC_REPRO fresh processes
+    running the case alone with many more rounds (a race report: the whole batch again): schedules are the Go scheduler's."""
     rdir = os.path.join(ctx.out, "race_" + stage)
     res = ctx.replay(stage, cases, race=True, env_extra=_gorace(rdir))
     if "DATA RACE" in (ctx.last_stderr or ""):
@@ -133,25 +163,25 @@ def _conc_stage(ctx, stage, cases):
     ctx.fail_results[:] = [(n, c, r) for (n, c, r) in ctx.fail_results if n != stage]
     seen = {}
     for n, case, r in fails:
-        cls = r.get("deviation") or "?" + (r.get("what") or "")[:40]
+        cls = _cls(r)
         if cls not in seen:
             single = os.path.join(ctx.out, "single_%s.ndjson" % stage)
             with open(single, "w") as f:
-                f.write(json.dumps(case) + "\n")
+                f.write("".join(json.dumps(case) + "\n" for _ in range(4)))
             again = False
             for k in range(CONC_REPRO):
-                if r.get("deviation") == "X02/data-race":
+                if cls == "X02/data-race":
                     # the detector cannot always say which case raced: the whole batch again, in a fresh process
                     rr = ctx.replay(stage, cases, race=True, env_extra=_gorace(rdir + "_repro"))
                     hit = any(x.get("deviation") == "X02/data-race" for x in rr)
                 else:
-                    rr = ctx.replay(stage, single, race=True, env_extra=_gorace(rdir + "_repro"), extra={"rounds": 200})
-                    hit = not rr[0]["ok"]
+                    rr = ctx.replay(stage, single, race=True, env_extra=_gorace(rdir + "_repro"), extra={"rounds": 100})
+                    hit = any(not x["ok"] for x in rr)
                 if hit:
                     again = True
                     break
             if not again:
-                raise vlib.Broken("failure of the %s stage did not show again in %d fresh processes x 200 rounds: %s"
+                raise vlib.Broken("failure of the %s stage did not show again in %d fresh processes x 100 rounds: %s"
                                   % (stage, CONC_REPRO, json.dumps(r)[:800]))
             seen[cls] = True
         ctx.fail_results.append((n, case, r))
@@ -215,21 +245,17 @@ def run(ctx):
                   count_states=False, timeout=900), nconc * 9 // 10, "Gen_CtxTree_concsim")
 
     # ---- REPLAY: the package as it is compiled today
-    res = ctx.replay("seq", seq)
-    ctx.judge("seq", seq, res)
+    res = _seq_stage(ctx, "seq", seq)
     ctx.notes["retried_for_timing_seq"] = sum(1 for r in res if (r.get("info") or {}).get("attempt", 0) > 0)
     _conc_stage(ctx, "conc", conc)
     # the concurrent cases are behaviours too: sequentially they must give the same final state
-    res = ctx.replay("seq", conc)
-    ctx.judge("seq", conc, res)
+    _seq_stage(ctx, "seq", conc)
 
     # ---- REPLAY: the hand written pre-go1.7 tree (overlay build)
-    res = ctx.replay("pre17_seq", seq)
-    ctx.judge("pre17_seq", seq, res)
+    res = _seq_stage(ctx, "pre17_seq", seq)
     ctx.notes["retried_for_timing_pre17_seq"] = sum(1 for r in res if (r.get("info") or {}).get("attempt", 0) > 0)
     _conc_stage(ctx, "pre17_conc", conc)
-    res = ctx.replay("pre17_seq", conc)
-    ctx.judge("pre17_seq", conc, res)
+    _seq_stage(ctx, "pre17_seq", conc)
     ctx.notes["variants"] = {"live": "go17.go + standard library context (%s)" % subprocess.run(
         ["go", "version"], stdout=subprocess.PIPE, text=True).stdout.strip(),
         "pre17": "pre_go17.go, constraint removed by overlay"}
